@@ -127,6 +127,102 @@ def extra_checks(rng, tier, g, info):
             yield ("mn_new - %d" % bits, "entropy bit(s) %s never vary over %d fresh %d-word mnemonics" % (
                 stuck[:8], n_draw, ln))
     info["real_urandom_draws"] = calls
+    # 4. import fall-backs: every module the package imports under `try: ... except ImportError` may be absent
+    #    (or shadowed) in a user's environment; the entropy source must be the OS one on that branch as well.
+    #    Each such module is made un-importable in a fresh process and the request-size / re-seed test repeated.
+    names = optional_imports()
+    info["import_fallbacks_explored"] = sorted(names)
+    for name in sorted(names):
+        res = run_blocked(name)
+        for ln, r in sorted(res.items()):
+            if "error" in r:
+                continue        # the package refuses to work without the module: no wallet, no claim
+            bits = LENS[int(ln)]
+            if r["requested"] * 8 < bits:
+                yield ("mn_new - %d #import-of-%s-fails" % (bits, name),
+                       "with module `%s` not importable, a new %s-word wallet requested %d bytes from the OS source "
+                       "(need >= %d)" % (name, ln, r["requested"], bits // 8))
+            elif r["repeat"]:
+                yield ("mn_new - %d #import-of-%s-fails" % (bits, name),
+                       "with module `%s` not importable, two new %s-word wallets coincide after random.seed(7) twice"
+                       % (name, ln))
+
+
+def optional_imports():
+    """top-level names of modules imported inside a `try` whose handlers catch ImportError (or everything)"""
+    import ast
+    import glob
+    out = set()
+    for f in glob.glob(os.path.join(impl.REPO, "btc_hd_wallet", "*.py")):
+        try:
+            tree = ast.parse(open(f).read())
+        except SyntaxError:
+            continue
+        for node in ast.walk(tree):
+            if not isinstance(node, ast.Try):
+                continue
+            catches = False
+            for h in node.handlers:
+                ts = [h.type] if h.type is not None and not isinstance(h.type, ast.Tuple) else (h.type.elts if h.type is not None else [None])
+                for t in ts:
+                    nm = getattr(t, "id", None) or getattr(t, "attr", None)
+                    if t is None or nm in ("ImportError", "ModuleNotFoundError", "Exception", "BaseException"):
+                        catches = True
+            if not catches:
+                continue
+            for b in node.body:
+                for x in ast.walk(b):
+                    if isinstance(x, ast.Import):
+                        out.update(a.name.split(".")[0] for a in x.names)
+                    elif isinstance(x, ast.ImportFrom) and x.module and x.level == 0:
+                        out.add(x.module.split(".")[0])
+    out.discard("btc_hd_wallet")
+    return out
+
+
+_BLOCKED_SRC = r'''
+import sys, json, os, random
+name, repo = sys.argv[1], sys.argv[2]
+sys.modules[name] = None            # `import name` now raises ImportError
+sys.path.insert(0, repo)
+res = {}
+try:
+    from btc_hd_wallet.base_wallet import BaseWallet
+    real = os.urandom
+    for ln in (12, 15, 18, 21, 24):
+        rec = []
+        def stub(n, _rec=rec):
+            _rec.append(n)
+            return real(n)
+        saved = (random._urandom, os.urandom)
+        random._urandom = stub; os.urandom = stub
+        try:
+            BaseWallet.new_wallet(mnemonic_length=ln)
+            req = sum(rec)
+            outs = []
+            for s in (7, 7):
+                random.seed(s)
+                outs.append(BaseWallet.new_wallet(mnemonic_length=ln).mnemonic)
+            res[ln] = {"requested": req, "repeat": outs[0] == outs[1]}
+        except Exception as e:
+            res[ln] = {"error": repr(e)[:100]}
+        finally:
+            random._urandom, os.urandom = saved
+except Exception as e:
+    res = {ln: {"error": repr(e)[:100]} for ln in (12, 15, 18, 21, 24)}
+print(json.dumps(res))
+'''
+
+
+def run_blocked(name):
+    import json
+    import subprocess
+    import sys
+    p = subprocess.run([sys.executable, "-c", _BLOCKED_SRC, name, impl.REPO], capture_output=True, text=True, timeout=300)
+    try:
+        return json.loads(p.stdout.strip().splitlines()[-1])
+    except Exception:
+        return {}
 
 
 known_match = common.no_known
